@@ -7,7 +7,8 @@ import Sentinel.Gen.Adapters
 `Sentinel.Gen.adapters` is regenerated from the syntax trees of `pkg/adapters/**` on every run
 (`go/cmd/extract19`); the table theorem below is therefore re-proved by the kernel against the current
 source each time.  A removed `defer`, an inverted block test, a handler call without an entry, a new entry
-point without `Exit`, or any construct the translator cannot classify (`.unknown`) makes
+point without `Exit`, a block branch that does not stop the handler chain of a framework in which returning alone
+does not (gin, hertz, iris under forced execution rules, gear), or any construct the translator cannot classify (`.unknown`) makes
 `all_rows_ok` — and with it `all_adapters_conform` — fail to build.
 
 Only core Lean is used (no Mathlib): every statement is decided by kernel evaluation of the IR semantics
@@ -52,8 +53,8 @@ theorem isKnown_key {p : Prog} (h : isKnown p = true) : p.key ∈ knownKeys := b
   unfold isKnown at h
   obtain ⟨k, hk, hb⟩ := List.any_eq_true.mp h
   have hkey : k.key = p.key := by
-    have := (Bool.and_eq_true _ _).mp hb
-    exact beq_iff_eq.mp this.1
+    simp only [Bool.and_eq_true, beq_iff_eq] at hb
+    exact hb.1.1.1
   exact hkey ▸ List.mem_map.mpr ⟨k, hk, rfl⟩
 
 /-- the statement over the complement of the recorded keys (as in DESIGN.md 6.C19) -/
@@ -77,16 +78,18 @@ theorem known_all_nonconforming : ∀ k ∈ knownProgs, conformsAll k = false :=
 theorem echo_untraced_witness : conforms known_echo ⟨false, .err⟩ = false := by decide
 /-- fiber: the same -/
 theorem fiber_untraced_witness : conforms known_fiber ⟨false, .err⟩ = false := by decide
-/-- gear: admitted request, the entry is exited although the handler has not run inside it -/
-theorem gear_exit_before_handler_witness : conforms known_gear ⟨false, .ok⟩ = false := by decide
+/-- gear: admitted request, the entry is exited and only then does gear go on to the handler -/
+theorem gear_exit_before_handler_witness :
+    known_gear.run ⟨false, .ok⟩ = [.entryAsked, .exit, .handlerRun] ∧
+    conforms known_gear ⟨false, .ok⟩ = false := by decide
 /-- micro `Call`, outlier arm, blocked request: the handler runs and `Exit` on the nil entry panics -/
 theorem micro_outlier_nil_entry_witness :
-    runProg ⟨true, .ok⟩ known_micro_call_outlier.body = [.entryAsked, .handlerRun, .nilDeref] ∧
+    known_micro_call_outlier.run ⟨true, .ok⟩ = [.entryAsked, .handlerRun, .nilDeref] ∧
     conforms known_micro_call_outlier ⟨true, .ok⟩ = false := by decide
 theorem micro_stream_outlier_witness : conforms known_micro_stream_outlier ⟨true, .ok⟩ = false := by decide
 /-- kitex outlier arm, blocked: `entry.Context()` on the nil entry, then the deferred `Exit` on it -/
 theorem kitex_outlier_witness :
-    runProg ⟨true, .ok⟩ known_kitex_outlier.body = [.entryAsked, .nilDeref, .nilDeref] ∧
+    known_kitex_outlier.run ⟨true, .ok⟩ = [.entryAsked, .nilDeref, .nilDeref] ∧
     conforms known_kitex_outlier ⟨true, .ok⟩ = false := by decide
 theorem kratos_outlier_witness : conforms known_kratos_outlier ⟨true, .ok⟩ = false := by decide
 theorem kratos_outlier_md_witness : conforms known_kratos_outlier_md ⟨true, .ok⟩ = false := by decide
@@ -105,42 +108,111 @@ theorem outlier_arms_partial : ∀ k ∈ [known_micro_call_outlier, known_micro_
       known_kratos_outlier_md, known_kitex_outlier],
     conforms k ⟨false, .ok⟩ = true ∧ conforms k ⟨false, .panic⟩ = true := by decide
 
-/-! ## General lemmas about the IR semantics (independent of the table) -/
+/-- gear's block branch is fine (`End` stops gear's middleware loop): only the admitted paths fail -/
+theorem gear_partial : ∀ hd : Handler, conforms known_gear ⟨true, hd⟩ = true := by
+  intro hd; cases hd <;> decide
 
-theorem conforms_mk (k : String) (b : List Stmt) (s : Scenario) :
-    conforms ⟨k, b⟩ s = conformsTrace s (runProg s b) := rfl
+/-! ## What stops the handler chain is framework-dependent (seeded change C19-r3-3) -/
 
-/-- the canonical shape conforms in every scenario, provided a handed-back error is traced -/
-theorem canonical_conforms (key : String) (eb tr : Bool) (h : eb = true → tr = true) (s : Scenario) :
-    conforms ⟨key, [.entry, .ifBlocked [.fallback, .ret], .deferExit, .callNext eb tr, .ret]⟩ s = true := by
+/-- the iris middleware as it is: the default rejection sets the status **and** stops the execution -/
+def irisAsIs : Prog := ⟨"iris/middleware.go:SentinelMiddleware.func1", "iris", ["Next"],
+  [.entry, .ifBlocked [.reject [["option"], ["StatusCode", "StopExecution"]], .ret], .deferExit, .callNext false false]⟩
+/-- … with `c.StopExecution()` dropped as "redundant" -/
+def irisNoStop : Prog := ⟨"iris/middleware.go:SentinelMiddleware.func1", "iris", ["Next"],
+  [.entry, .ifBlocked [.reject [["option"], ["StatusCode"]], .ret], .deferExit, .callNext false false]⟩
+
+theorem iris_as_is_conforms : ∀ s : Scenario, conforms irisAsIs s = true := by
+  intro s; rcases s with ⟨b, h⟩; cases b <;> cases h <;> decide
+
+/-- returning without `ctx.Next()` does not end an iris chain under forced execution rules: the blocked request
+reaches the handler -/
+theorem iris_return_without_stop_witness :
+    irisNoStop.run ⟨true, .ok⟩ = [.entryAsked, .fallback, .handlerRun] ∧
+    conforms irisNoStop ⟨true, .ok⟩ = false := by decide
+
+/-- gin: `c.Status(429); return` instead of `c.AbortWithStatus(429)` lets the `Next` loop run the handler -/
+theorem gin_return_without_abort_witness :
+    conforms ⟨"gin/middleware.go:SentinelMiddleware.func1", "gin", ["Next"],
+      [.entry, .ifBlocked [.reject [["option"], ["Status"]], .ret], .deferExit, .callNext false false]⟩ ⟨true, .ok⟩ = false := by
+  decide
+
+/-- the same body is fine in a wrapping framework, where only the middleware holds `next` -/
+theorem wrapping_return_stops :
+    ∀ s : Scenario, conforms ⟨"go-zero/x.go:f", "go-zero", ["param"],
+      [.entry, .ifBlocked [.reject [["http.Error"]], .ret], .deferExit, .callNext false false]⟩ s = true := by
+  intro s; rcases s with ⟨b, h⟩; cases b <;> cases h <;> decide
+
+/-- an adapter package without a row in the framework table is rejected as soon as it calls a handler -/
+theorem unknown_framework_rejected (p : Prog) (s : Scenario) (hv : p.nextVia ≠ [])
+    (hf : (frameworkOf p.fw).nextCalls = []) : conforms p s = false := by
+  unfold conforms Prog.nextOk
+  cases h : p.nextVia with
+  | nil => exact absurd h hv
+  | cons v r => simp [hf]
+
+/-! ## General lemmas about the IR semantics (independent of the table, for every chain `ch`) -/
+
+theorem conforms_mk (k fw : String) (via : List String) (b : List Stmt) (s : Scenario) :
+    conforms ⟨k, fw, via, b⟩ s =
+      ((⟨k, fw, via, b⟩ : Prog).nextOk && conformsTrace s (runProg (⟨k, fw, via, b⟩ : Prog).chain s b)) := rfl
+
+/-- the rejection of the block branch is good for chain `ch`: every alternative produces the rejection, and
+stops the chain where returning alone does not -/
+def goodReject (ch : Chain) (alts : List (List String)) : Bool :=
+  allAlts alts ch.isResponse && (ch.returnStops || allAlts alts ch.isStop)
+
+/-- the canonical shape conforms in every scenario and every framework, provided a handed-back error is traced
+and the rejection is good for the framework's chain -/
+theorem canonical_conforms (ch : Chain) (alts : List (List String)) (eb tr : Bool) (h : eb = true → tr = true)
+    (hr : goodReject ch alts = true) (s : Scenario) :
+    conformsTrace s (runProg ch s [.entry, .ifBlocked [.reject alts, .ret], .deferExit, .callNext eb tr, .ret]) = true := by
+  unfold goodReject at hr
+  simp only [Bool.and_eq_true, Bool.or_eq_true] at hr
   rcases s with ⟨b, hd⟩
-  rw [conforms_mk]
-  cases eb <;> cases tr <;> simp at h <;> cases b <;> cases hd <;> decide
+  cases eb <;> cases tr <;> simp at h <;> cases b <;> cases hd <;>
+    simp [runProg, execList, exec, unwind, frameworkAdvances, conformsTrace, count, hr.1] <;>
+    (rcases hr.2 with h2 | h2 <;> simp [h2])
 
 /-- the same without the trailing `return` (void middlewares: gin, iris, goframe, go-zero, hertz server) -/
-theorem canonical_void_conforms (key : String) (tr : Bool) (s : Scenario) :
-    conforms ⟨key, [.entry, .ifBlocked [.fallback, .ret], .deferExit, .callNext false tr]⟩ s = true := by
+theorem canonical_void_conforms (ch : Chain) (alts : List (List String)) (tr : Bool)
+    (hr : goodReject ch alts = true) (s : Scenario) :
+    conformsTrace s (runProg ch s [.entry, .ifBlocked [.reject alts, .ret], .deferExit, .callNext false tr]) = true := by
+  unfold goodReject at hr
+  simp only [Bool.and_eq_true, Bool.or_eq_true] at hr
   rcases s with ⟨b, hd⟩
-  rw [conforms_mk]
-  cases tr <;> cases b <;> cases hd <;> decide
+  cases tr <;> cases b <;> cases hd <;>
+    simp [runProg, execList, exec, unwind, frameworkAdvances, conformsTrace, count, hr.1] <;>
+    (rcases hr.2 with h2 | h2 <;> simp [h2])
+
+/-- **return alone does not stop every chain**: in a framework where returning does not end the chain, a block
+branch none of whose calls stops it lets the blocked request reach the handler — whatever the rejection writes -/
+theorem return_without_stop_fails (ch : Chain) (alts : List (List String)) (eb tr : Bool) (hd : Handler)
+    (hret : ch.returnStops = false) (hstop : allAlts alts ch.isStop = false) :
+    conformsTrace ⟨true, hd⟩
+      (runProg ch ⟨true, hd⟩ [.entry, .ifBlocked [.reject alts, .ret], .deferExit, .callNext eb tr, .ret]) = false := by
+  cases h : allAlts alts ch.isResponse <;>
+    simp [runProg, execList, exec, unwind, frameworkAdvances, conformsTrace, count, hret, hstop, h]
 
 /-- dropping the `defer` breaks the canonical shape exactly on the admitted paths -/
-theorem canonical_without_defer_fails (key : String) (eb tr : Bool) (hd : Handler) :
-    conforms ⟨key, [.entry, .ifBlocked [.fallback, .ret], .callNext eb tr, .ret]⟩ ⟨false, hd⟩ = false := by
-  rw [conforms_mk]
-  cases eb <;> cases tr <;> cases hd <;> decide
+theorem canonical_without_defer_fails (ch : Chain) (alts : List (List String)) (eb tr : Bool) (hd : Handler) :
+    conformsTrace ⟨false, hd⟩
+      (runProg ch ⟨false, hd⟩ [.entry, .ifBlocked [.reject alts, .ret], .callNext eb tr, .ret]) = false := by
+  cases eb <;> cases tr <;> cases hd <;>
+    simp [runProg, execList, exec, unwind, frameworkAdvances, conformsTrace, count]
 
 /-- an immediate `Exit` after the handler instead of `defer` leaks the entry when the handler panics -/
-theorem exit_after_call_leaks_on_panic (key : String) (eb tr : Bool) :
-    conforms ⟨key, [.entry, .ifBlocked [.fallback, .ret], .callNext eb tr, .exitNow, .ret]⟩ ⟨false, .panic⟩ = false := by
-  rw [conforms_mk]
-  cases eb <;> cases tr <;> decide
+theorem exit_after_call_leaks_on_panic (ch : Chain) (alts : List (List String)) (eb tr : Bool) :
+    conformsTrace ⟨false, .panic⟩
+      (runProg ch ⟨false, .panic⟩ [.entry, .ifBlocked [.reject alts, .ret], .callNext eb tr, .exitNow, .ret]) = false := by
+  cases eb <;> cases tr <;>
+    simp [runProg, execList, exec, unwind, frameworkAdvances, conformsTrace, count]
 
 /-- a block branch that falls through runs the handler for a blocked request -/
-theorem fallthrough_block_branch_fails (key : String) (eb tr : Bool) (hd : Handler) :
-    conforms ⟨key, [.entry, .ifBlocked [.fallback], .deferExit, .callNext eb tr, .ret]⟩ ⟨true, hd⟩ = false := by
-  rw [conforms_mk]
-  cases eb <;> cases tr <;> cases hd <;> decide
+theorem fallthrough_block_branch_fails (ch : Chain) (alts : List (List String)) (eb tr : Bool) (hd : Handler) :
+    conformsTrace ⟨true, hd⟩
+      (runProg ch ⟨true, hd⟩ [.entry, .ifBlocked [.reject alts], .deferExit, .callNext eb tr, .ret]) = false := by
+  cases h : allAlts alts ch.isResponse <;> cases eb <;> cases tr <;> cases hd <;>
+    simp [runProg, execList, exec, unwind, frameworkAdvances, conformsTrace, count, h]
 
 theorem count_pos_of_mem {e : Ev} {tr : List Ev} (h : e ∈ tr) : count e tr ≠ 0 := by
   unfold count
@@ -171,15 +243,23 @@ theorem admitted_needs_exit (hd : Handler) (tr : List Ev) (h : Ev.exit ∉ tr) :
   unfold conformsTrace
   simp [this]
 
+/-- a blocked request that reaches the handler — inside the body or because the framework went on — does not conform -/
+theorem blocked_handler_rejected (hd : Handler) (tr : List Ev) (h : Ev.handlerRun ∈ tr) :
+    conformsTrace ⟨true, hd⟩ tr = false := by
+  have := count_pos_of_mem h
+  unfold conformsTrace
+  simp [this]
+
 /-! ### Control flow: statements after a `return` are dead, whatever they are -/
 
-theorem execList_stopped (sc : Scenario) (s : St) (l : List Stmt) (h : s.stopped = true) : execList sc s l = s := by
+theorem execList_stopped (ch : Chain) (sc : Scenario) (s : St) (l : List Stmt) (h : s.stopped = true) :
+    execList ch sc s l = s := by
   cases l with
   | nil => simp [execList]
   | cons x r => simp [execList, h]
 
-theorem execList_append (sc : Scenario) (a b : List Stmt) : ∀ s : St,
-    execList sc s (a ++ b) = execList sc (execList sc s a) b := by
+theorem execList_append (ch : Chain) (sc : Scenario) (a b : List Stmt) : ∀ s : St,
+    execList ch sc s (a ++ b) = execList ch sc (execList ch sc s a) b := by
   induction a with
   | nil => intro s; simp [execList]
   | cons x r ih =>
@@ -188,9 +268,9 @@ theorem execList_append (sc : Scenario) (a b : List Stmt) : ∀ s : St,
     · simp [execList, hs, execList_stopped]
     · simp [execList, hs, ih]
 
-theorem dead_code_after_ret (sc : Scenario) (pre junk : List Stmt) :
-    runProg sc (pre ++ .ret :: junk) = runProg sc (pre ++ [.ret]) := by
-  have key : ∀ s : St, execList sc s (.ret :: junk) = execList sc s [.ret] := by
+theorem dead_code_after_ret (ch : Chain) (sc : Scenario) (pre junk : List Stmt) :
+    runProg ch sc (pre ++ .ret :: junk) = runProg ch sc (pre ++ [.ret]) := by
+  have key : ∀ s : St, execList ch sc s (.ret :: junk) = execList ch sc s [.ret] := by
     intro s
     by_cases hs : s.stopped = true
     · simp [execList, hs]
@@ -198,17 +278,17 @@ theorem dead_code_after_ret (sc : Scenario) (pre junk : List Stmt) :
   unfold runProg
   rw [execList_append, execList_append, key]
 
-/-! ### Structural theorems (mutual induction over the nested IR): they hold for *every* body, not just the table -/
+/-! ### Structural theorems (mutual induction over the nested IR): they hold for *every* body and chain -/
 
 mutual
-theorem exec_prefix (sc : Scenario) : ∀ (x : Stmt) (s : St), s.trace <+: (exec sc s x).trace
+theorem exec_prefix (ch : Chain) (sc : Scenario) : ∀ (x : Stmt) (s : St), s.trace <+: (exec ch sc s x).trace
   | .entry, s => by simp [exec]
   | .ifBlocked th, s => by
       simp only [exec]
       split
-      · exact execList_prefix sc th s
+      · exact execList_prefix ch sc th s
       · exact List.prefix_refl _
-  | .fallback, s => by simp [exec]
+  | .reject alts, s => by simp only [exec]; split <;> simp
   | .ret, s => by simp [exec]
   | .deferExit, s => by simp [exec]
   | .exitNow, s => by simp only [exec]; split <;> simp
@@ -222,13 +302,13 @@ theorem exec_prefix (sc : Scenario) : ∀ (x : Stmt) (s : St), s.trace <+: (exec
         · simp
       · simp
   | .unknown, s => by simp [exec]
-theorem execList_prefix (sc : Scenario) : ∀ (l : List Stmt) (s : St), s.trace <+: (execList sc s l).trace
+theorem execList_prefix (ch : Chain) (sc : Scenario) : ∀ (l : List Stmt) (s : St), s.trace <+: (execList ch sc s l).trace
   | [], s => by simp [execList]
   | x :: r, s => by
       simp only [execList]
       split
       · exact List.prefix_refl _
-      · exact (exec_prefix sc x s).trans (execList_prefix sc r (exec sc s x))
+      · exact (exec_prefix ch sc x s).trans (execList_prefix ch sc r (exec ch sc s x))
 end
 
 theorem unwind_prefix (nil : Bool) : ∀ (n : Nat) (tr : List Ev), tr <+: unwind nil n tr
@@ -237,12 +317,18 @@ theorem unwind_prefix (nil : Bool) : ∀ (n : Nat) (tr : List Ev), tr <+: unwind
       simp only [unwind]
       exact (List.prefix_append tr _).trans (unwind_prefix nil n _)
 
-theorem runProg_prefix (sc : Scenario) (x : Stmt) (rest : List Stmt) :
-    (exec sc {} x).trace <+: runProg sc (x :: rest) := by
+theorem runProg_prefix (ch : Chain) (sc : Scenario) (x : Stmt) (rest : List Stmt) :
+    (exec ch sc {} x).trace <+: runProg ch sc (x :: rest) := by
   unfold runProg
-  have h : execList sc {} (x :: rest) = execList sc (exec sc {} x) rest := by simp [execList]
+  have h : execList ch sc {} (x :: rest) = execList ch sc (exec ch sc {} x) rest := by simp [execList]
   rw [h]
-  exact (execList_prefix sc rest _).trans (unwind_prefix _ _ _)
+  have h0 := execList_prefix ch sc rest (exec ch sc {} x)
+  generalize execList ch sc (exec ch sc {} x) rest = s at h0 ⊢
+  have h1 := h0.trans (unwind_prefix s.entryNil s.deferred s.trace)
+  dsimp only
+  split
+  · exact h1.trans (List.prefix_append _ _)
+  · exact h1
 
 theorem head?_of_prefix {α} {a : α} {l m : List α} (h : l <+: m) (hl : l.head? = some a) : m.head? = some a := by
   obtain ⟨t, rfl⟩ := h
@@ -251,20 +337,19 @@ theorem head?_of_prefix {α} {a : α} {l m : List α} (h : l <+: m) (hl : l.head
   | cons b r => simpa using hl
 
 /-- whatever follows, a body whose first statement produces an event other than asking for the entry
-(handler call, fallback, exit, unknown construct …) does not conform in any scenario -/
-theorem first_event_must_be_entry (k : String) (sc : Scenario) (x : Stmt) (rest : List Stmt) (e : Ev)
-    (h : (exec sc {} x).trace.head? = some e) (he : e ≠ .entryAsked) :
-    conforms ⟨k, x :: rest⟩ sc = false := by
-  have hp := head?_of_prefix (runProg_prefix sc x rest) h
-  show conformsTrace sc (runProg sc (x :: rest)) = false
+(handler call, rejection, exit, unknown construct …) does not conform in any scenario -/
+theorem first_event_must_be_entry (ch : Chain) (sc : Scenario) (x : Stmt) (rest : List Stmt) (e : Ev)
+    (h : (exec ch sc {} x).trace.head? = some e) (he : e ≠ .entryAsked) :
+    conformsTrace sc (runProg ch sc (x :: rest)) = false := by
+  have hp := head?_of_prefix (runProg_prefix ch sc x rest) h
   unfold conformsTrace
   rw [hp]
   have : (some e = some Ev.entryAsked) = False := by simp [he]
   simp [this]
 
-theorem handler_before_entry_never_conforms (k : String) (sc : Scenario) (eb tr : Bool) (rest : List Stmt) :
-    conforms ⟨k, .callNext eb tr :: rest⟩ sc = false := by
-  apply first_event_must_be_entry k sc _ rest .handlerRun
+theorem handler_before_entry_never_conforms (ch : Chain) (sc : Scenario) (eb tr : Bool) (rest : List Stmt) :
+    conformsTrace sc (runProg ch sc (.callNext eb tr :: rest)) = false := by
+  apply first_event_must_be_entry ch sc _ rest .handlerRun
   · rcases sc with ⟨b, h⟩; cases h <;> cases eb <;> cases tr <;> simp [exec]
   · decide
 
@@ -275,24 +360,27 @@ theorem unwind_nil_mem : ∀ (n : Nat) (tr : List Ev), Ev.nilDeref ∈ unwind tr
       simpa [unwind] using this
 
 /-- a deferred `Exit` still pending on a nil entry when the body ends panics: never conforms -/
-theorem pending_defer_on_nil_entry_never_conforms (k : String) (sc : Scenario) (body : List Stmt)
-    (hn : (execList sc {} body).entryNil = true) (hd : (execList sc {} body).deferred ≠ 0) :
-    conforms ⟨k, body⟩ sc = false := by
-  show conformsTrace sc (runProg sc body) = false
+theorem pending_defer_on_nil_entry_never_conforms (ch : Chain) (sc : Scenario) (body : List Stmt)
+    (hn : (execList ch sc {} body).entryNil = true) (hd : (execList ch sc {} body).deferred ≠ 0) :
+    conformsTrace sc (runProg ch sc body) = false := by
   apply nilDeref_rejected
   unfold runProg
   obtain ⟨n, hn'⟩ := Nat.exists_eq_succ_of_ne_zero hd
-  simp only [hn, hn']
-  exact unwind_nil_mem n _
+  have hm := unwind_nil_mem n (execList ch sc {} body).trace
+  dsimp only
+  rw [hn, hn']
+  split
+  · exact List.mem_append_left _ hm
+  · exact hm
 
 mutual
-theorem exec_blocked_inv (sc : Scenario) (hb : sc.blocked = true) :
-    ∀ (x : Stmt) (s : St), s.entryNil = true → (exec sc s x).entryNil = true ∧ s.deferred ≤ (exec sc s x).deferred
+theorem exec_blocked_inv (ch : Chain) (sc : Scenario) (hb : sc.blocked = true) :
+    ∀ (x : Stmt) (s : St), s.entryNil = true → (exec ch sc s x).entryNil = true ∧ s.deferred ≤ (exec ch sc s x).deferred
   | .entry, s, _ => by simp [exec, hb]
   | .ifBlocked th, s, h => by
       simp only [exec, hb, if_true]
-      exact execList_blocked_inv sc hb th s h
-  | .fallback, s, h => by simp [exec, h]
+      exact execList_blocked_inv ch sc hb th s h
+  | .reject alts, s, h => by simp [exec, h]
   | .ret, s, h => by simp [exec, h]
   | .deferExit, s, h => by simp [exec, h]
   | .exitNow, s, h => by simp [exec, h]
@@ -306,76 +394,82 @@ theorem exec_blocked_inv (sc : Scenario) (hb : sc.blocked = true) :
         · simp [h]
       · simp [h]
   | .unknown, s, h => by simp [exec, h]
-theorem execList_blocked_inv (sc : Scenario) (hb : sc.blocked = true) :
-    ∀ (l : List Stmt) (s : St), s.entryNil = true → (execList sc s l).entryNil = true ∧ s.deferred ≤ (execList sc s l).deferred
+theorem execList_blocked_inv (ch : Chain) (sc : Scenario) (hb : sc.blocked = true) :
+    ∀ (l : List Stmt) (s : St), s.entryNil = true →
+      (execList ch sc s l).entryNil = true ∧ s.deferred ≤ (execList ch sc s l).deferred
   | [], s, h => by simp [execList, h]
   | x :: r, s, h => by
       simp only [execList]
       split
       · simp [h]
-      · have h1 := exec_blocked_inv sc hb x s h
-        have h2 := execList_blocked_inv sc hb r (exec sc s x) h1.1
+      · have h1 := exec_blocked_inv ch sc hb x s h
+        have h2 := execList_blocked_inv ch sc hb r (exec ch sc s x) h1.1
         exact ⟨h2.1, Nat.le_trans h1.2 h2.2⟩
 end
 
 /-- **ignoring the block result is never right**: a body that defers `Exit` straight after `Entry`, without
-testing the block error, fails every blocked scenario — whatever statements follow -/
-theorem unchecked_defer_never_conforms_blocked (k : String) (hd : Handler) (rest : List Stmt) :
-    conforms ⟨k, .entry :: .deferExit :: rest⟩ ⟨true, hd⟩ = false := by
-  have h0 : execList ⟨true, hd⟩ {} (.entry :: .deferExit :: rest) =
-      execList ⟨true, hd⟩ { trace := [.entryAsked], deferred := 1, entryNil := true, stopped := false } rest := by
+testing the block error, fails every blocked scenario — whatever statements follow, in every framework -/
+theorem unchecked_defer_never_conforms_blocked (ch : Chain) (hd : Handler) (rest : List Stmt) :
+    conformsTrace ⟨true, hd⟩ (runProg ch ⟨true, hd⟩ (.entry :: .deferExit :: rest)) = false := by
+  have h0 : execList ch ⟨true, hd⟩ {} (.entry :: .deferExit :: rest) =
+      execList ch ⟨true, hd⟩ { trace := [.entryAsked], deferred := 1, entryNil := true } rest := by
     simp [execList, exec]
-  have inv := execList_blocked_inv ⟨true, hd⟩ rfl rest
-    { trace := [.entryAsked], deferred := 1, entryNil := true, stopped := false } rfl
+  have inv := execList_blocked_inv ch ⟨true, hd⟩ rfl rest
+    { trace := [.entryAsked], deferred := 1, entryNil := true } rfl
   apply pending_defer_on_nil_entry_never_conforms
   · rw [h0]; exact inv.1
   · rw [h0]; have := inv.2; simp at this; omega
 
-theorem exec_admitted_plain (sc : Scenario) (hb : sc.blocked = false) (x : Stmt) (hx : plainStmt x = true) (s : St) :
-    (exec sc s x).deferred = s.deferred ∧ count .handlerRun (exec sc s x).trace = count .handlerRun s.trace := by
+theorem exec_admitted_plain (ch : Chain) (sc : Scenario) (hb : sc.blocked = false) (x : Stmt) (hx : plainStmt x = true) (s : St) :
+    (exec ch sc s x).deferred = s.deferred ∧ count .handlerRun (exec ch sc s x).trace = count .handlerRun s.trace := by
   cases x with
   | deferExit => simp [plainStmt] at hx
   | callNext eb tr => simp [plainStmt] at hx
   | ifBlocked th => simp [exec, hb]
+  | reject alts => simp only [exec]; split <;> simp [count]
   | exitNow => simp only [exec]; split <;> simp [count]
   | useEntry => simp only [exec]; split <;> simp [count]
   | _ => simp [exec, count]
 
-theorem execList_admitted_plain (sc : Scenario) (hb : sc.blocked = false) :
+theorem execList_admitted_plain (ch : Chain) (sc : Scenario) (hb : sc.blocked = false) :
     ∀ (pre : List Stmt), (∀ x ∈ pre, plainStmt x = true) → ∀ s : St,
-      (execList sc s pre).deferred = s.deferred ∧ count .handlerRun (execList sc s pre).trace = count .handlerRun s.trace
+      (execList ch sc s pre).deferred = s.deferred ∧
+      count .handlerRun (execList ch sc s pre).trace = count .handlerRun s.trace
   | [], _, s => by simp [execList]
   | x :: r, h, s => by
       simp only [execList]
       split
       · simp
-      · have h1 := exec_admitted_plain sc hb x (h x (by simp)) s
-        have h2 := execList_admitted_plain sc hb r (fun y hy => h y (by simp [hy])) (exec sc s x)
+      · have h1 := exec_admitted_plain ch sc hb x (h x (by simp)) s
+        have h2 := execList_admitted_plain ch sc hb r (fun y hy => h y (by simp [hy])) (exec ch sc s x)
         exact ⟨h2.1.trans h1.1, h2.2.trans h1.2⟩
 
 /-- **panic safety needs `defer`**: if no `defer e.Exit()` precedes the (first) handler call, the admitted request
 whose handler panics is never exited properly — whatever comes before (tests, immediate exits, unknown constructs)
-and after the call -/
-theorem handler_panic_needs_defer (k : String) (pre post : List Stmt) (eb tr : Bool)
+and after the call, in every framework -/
+theorem handler_panic_needs_defer (ch : Chain) (pre post : List Stmt) (eb tr : Bool)
     (hpre : ∀ x ∈ pre, plainStmt x = true) :
-    conforms ⟨k, pre ++ .callNext eb tr :: post⟩ ⟨false, .panic⟩ = false := by
-  show conformsTrace ⟨false, .panic⟩ (runProg ⟨false, .panic⟩ (pre ++ .callNext eb tr :: post)) = false
-  have hp := execList_admitted_plain ⟨false, .panic⟩ rfl pre hpre {}
+    conformsTrace ⟨false, .panic⟩ (runProg ch ⟨false, .panic⟩ (pre ++ .callNext eb tr :: post)) = false := by
+  have hp := execList_admitted_plain ch ⟨false, .panic⟩ rfl pre hpre {}
   unfold runProg
   rw [execList_append]
-  generalize execList ⟨false, .panic⟩ {} pre = s1 at hp
+  generalize execList ch ⟨false, .panic⟩ {} pre = s1 at hp
   have hd : s1.deferred = 0 := hp.1
   have hc : count .handlerRun s1.trace = 0 := by simpa [count] using hp.2
   by_cases hs : s1.stopped = true
-  · rw [execList_stopped _ _ _ hs]
+  · rw [execList_stopped _ _ _ _ hs]
     simp only [hd, unwind]
-    unfold conformsTrace
-    simp [hc]
-  · have : execList ⟨false, .panic⟩ s1 (.callNext eb tr :: post) =
-        { s1 with trace := s1.trace ++ [.handlerRun], stopped := true } := by
+    split
+    · -- the framework went on to the handler after the body returned: the handler is the last event, not the exit
+      unfold conformsTrace
+      simp
+    · unfold conformsTrace
+      simp [hc]
+  · have : execList ch ⟨false, .panic⟩ s1 (.callNext eb tr :: post) =
+        { s1 with trace := s1.trace ++ [.handlerRun], advanced := true, stopped := true, panicking := true } := by
       simp [execList, hs, exec, execList_stopped]
     rw [this]
-    simp only [hd, unwind]
+    simp only [hd, unwind, frameworkAdvances]
     unfold conformsTrace
     simp
 
